@@ -136,3 +136,24 @@ Proof.
   pose proof (FragEvalFacts.frag_run_lemma prog4 12 no_devs H) as L. rewrite P in L. apply L.
   vm_compute. lia.
 Qed.
+
+(* ---- the front half and the end-to-end theorem applied (coq/CC/CompFacts.v, coq/CC/FragGlue.v) ---- *)
+From GL Require CC.FragGlue.
+Example front_half_applies : exists x s, compileChunk prog4 (mkCS [] [] [] 0) = Some (x, s) /\
+  isem_code (cs_consts s) (rev ((opCreateABC (op_code OP_RETURN) 0 1 0, last_line prog4 0) :: cs_code s)) [] = CFault 5.
+Proof.
+  destruct (compileChunk prog4 (mkCS [] [] [] 0)) as [[x s]|] eqn:E; [|vm_compute in E; discriminate].
+  exists x, s. split; [reflexivity|].
+  destruct (CompFacts.front_half_lemma prog4 x s (proj1 prog4_frag) E) as [H _].
+  rewrite (proj2 prog4_frag) in H. exact H.
+Qed.
+
+Example compile_correct_applies : exists p, compile_frag prog4 = Some p /\
+  exists n, forall fuel, (n <= fuel)%nat ->
+    is_skip (outcome_of (run_program fuel no_devs prog4)) = false ->
+    outcome_of_vfin (run_proto fuel p) = outcome_of (run_program fuel no_devs prog4).
+Proof.
+  destruct (compile_frag prog4) as [p|] eqn:E; [|vm_compute in E; discriminate].
+  exists p. split; [reflexivity|].
+  exact (FragGlue.frag_glue CompFacts.front_half_lemma prog4 p (proj1 prog4_frag) E).
+Qed.
